@@ -115,8 +115,8 @@ def _h_patch0(n, p2, h1, h2, top, share, ss, marker, tkind, ckind, v1, v2, v3):
     snap = pk.snapshot()
     try:
         n = max(1, _c(n, 4))
-        p2 = _c(p2, 2)
-        hs = [0, _c(h1, 5), _c(h2, 5), 0]
+        p2 = _c(p2, 2) if n >= 3 else 0
+        hs = [0, _c(h1, 5) if n >= 2 else 0, _c(h2, 5) if n >= 3 else 0, 0]
         top, share, ss, marker = _c(top, 4), _c(share, 3), _c(ss, 2), _c(marker, 4)
         tkind, ckind = _c(tkind, 4), _c(ckind, 5)
         ev("patch", n, p2, str(hs), top, share, ss, marker, tkind, ckind)
@@ -227,7 +227,7 @@ def _h_history(fail, n, h1, top, ss, marker, tkind, ckind, v1, v2, v3):
     try:
         fail = _c(fail, 5)
         n = max(1, _c(n, 4))
-        hs = [0, _c(h1, 5), 0, 0]
+        hs = [0, _c(h1, 5) if n >= 2 else 0, 0, 0]
         top, ss, marker = _c(top, 4), _c(ss, 2), _c(marker, 4)
         tkind, ckind = _c(tkind, 4), _c(ckind, 5)
         ev("history", fail, n, str(hs), top, ss, marker, tkind, ckind)
